@@ -264,6 +264,14 @@ def upsert (cat : Catalog) (z : Zone) : Catalog :=
     cat.map (fun y => if keyEq y.origin z.origin then z else y)
   else cat ++ [z]
 
+/-- `Catalog::remove` (`HashMap::remove`) -/
+def removeZone (cat : Catalog) (origin : Name) : Catalog :=
+  cat.filter (fun y => !keyEq y.origin origin.toLowercase)
+
+/-- `Catalog::contains` -/
+def containsZone (cat : Catalog) (origin : Name) : Bool :=
+  cat.any (fun y => keyEq y.origin origin.toLowercase)
+
 /-- `self.handlers.get(name)` -/
 def get (cat : Catalog) (n : Name) : Option Zone := cat.find? (fun z => keyEq z.origin n)
 
@@ -456,6 +464,15 @@ def catalogHandle (cat : Catalog) (h : Header) (q : Question) (edns : Option Nat
   else if h.opcode = OP_QUERY then catLookup cat h q edns.isSome
   else if h.opcode = OP_UPDATE then catUpdate cat h q edns.isSome
   else .reply (catError h edns.isSome RC_NOTIMP none [])
+
+/-- What `MessageResponse::encode` sends when emitting the response fails with anything but "does
+not fit" (e.g. a zone record holding a character-string of more than 255 octets): a bare header,
+`Metadata::new(id, Response, OpCode::Query)` with SERVFAIL — whatever the request's opcode and
+question were.  Not part of `handleRequest` (which describes responses whose encoding succeeds);
+see `Proofs/C11Send.lean`, finding C11.EncodeFallbackDropsQuestion. -/
+def encodeFallback (r : Reply) : Reply :=
+  { qr := true, rcode := some RC_SERVFAIL, id := r.id, opcode := OP_QUERY, rd := false, cd := false,
+    aa := false, ra := false, echo := false, opt := false, via := r.via, calls := r.calls }
 
 structure Config where
   acl : Acl
